@@ -275,3 +275,80 @@ contract(FS, 'Routine.resume', props=('C11',), params={'self': 'self', 'clock': 
          modifies=[('self', 'state')],
          fields={'Routine': {'state': 'int', '_clock': 'obj', '_state_lock': 'obj'}}, class_modules={'Routine': FS},
          hooks={'getattr': rs_getattr}, native=False)
+
+
+# ---- MetaClock.play (SystemClock / AppClock): playing IS scheduling now (C05: the start time of what plays) ---------------------
+def mp_getattr(eng, obj, name, st, node):
+    if obj.k == 'class' and name == 'sched':
+        def sched(eng, a, kw, st, node, _c=obj):
+            st.trace.append(('sched', _c.py, tuple(a), dict(kw)))
+            return [(st, NONE)]
+        return [(st, V('func', py=('spec', sched)))]
+    return None
+
+
+def mplay_post(c):
+    sc = [e for e in c.trace if e[0] == 'sched']
+    if len(sc) != 1 or sc[0][3] or len(sc[0][2]) != 2:
+        return z3.BoolVal(False)
+    d, task = sc[0][2]
+    zero = d.k in ('int', 'real') and z3.is_true(z3.simplify(to_real(d) == 0))
+    return z3.BoolVal(bool(zero) and task is c._params['task'])                 # on THIS clock, with delay 0, the very task
+
+
+contract(FC, 'MetaClock.play', props=('C05',), params={'cls': 'cls', 'task': 'obj', 'quant': 'obj'},
+         ensures=[('scheduled-once-on-this-clock-with-delay-zero', mplay_post)],
+         fields={'MetaClock': {}}, class_modules={'MetaClock': FC}, hooks={'getattr': mp_getattr}, modifies=[], native=False)
+
+
+# ---- TempoClock.stop: a running real-time clock is stopped (by _stop, contract above) from a helper thread -----------------------
+# (the caller may be a task of this very clock: joining its own thread would never end); a clock that does not run,
+# or the non-real-time mode: nothing is started.
+def ts_getattr(eng, obj, name, st, node):
+    if obj.k == 'ref' and obj.oid == 'self' and name == 'mode':
+        z = z3.Int('self.__mode')
+        st.pc.append(z3.And(z >= 0, z <= 1))
+        return [(st, vint(z))]
+    if obj.k == 'ref' and obj.oid == 'self' and name == 'running':
+        def run(eng, a, kw, st, node):
+            return [(st, vbool(z3.Bool('self.__running')))]
+        return [(st, V('func', py=('spec', run)))]
+    if obj.k == 'ref' and obj.oid == 'self' and name == '_stop':
+        return [(st, V('obj', oid='self._stop'))]
+    if obj.k == 'obj' and obj.oid == 'stop-thread' and name == 'start':
+        def start(eng, a, kw, st, node):
+            st.trace.append(('thread-started',))
+            return [(st, NONE)]
+        return [(st, V('func', py=('spec', start)))]
+    if obj.k == 'obj' and str(obj.oid).endswith('_atexitq') and name == 'remove':
+        def rm(eng, a, kw, st, node):
+            st.trace.append(('atexit-removed', tuple(a)))
+            return [(st, NONE)]
+        return [(st, V('func', py=('spec', rm)))]
+    return None
+
+
+def ts_ext(eng, mod, name, args, kwargs, st, node):
+    if mod == 'threading' and name == 'Thread':
+        st.trace.append(('thread-made', dict(kwargs), tuple(args)))
+        return [(st, V('obj', oid='stop-thread'))]
+    return None
+
+
+def tstop_post(c):
+    t = c.trace
+    made = [e for e in t if e[0] == 'thread-made']
+    started = [e for e in t if e[0] == 'thread-started']
+    rt = z3.Int('self.__mode') == 1
+    running = z3.Bool('self.__running')
+    if not made and not started:
+        return z3.Not(z3.And(rt, running))
+    ok = (len(made) == 1 and len(started) == 1 and t.index(made[0]) < t.index(started[0])
+          and made[0][1].get('target') is not None and made[0][1]['target'].k == 'obj' and made[0][1]['target'].oid == 'self._stop')
+    return z3.And(rt, running, z3.BoolVal(bool(ok)))                 # ONE helper thread that runs THIS clock's _stop, started
+
+
+contract(FC, 'TempoClock.stop', props=('C08',), params={'self': 'self'},
+         ensures=[('running-in-real-time:one-helper-thread-running-_stop-is-started;else-nothing-is-started', tstop_post)],
+         fields={'TempoClock': dict(SC), 'Main': MAIN_FIELDS, 'TimeThread': TT_FIELDS}, class_modules={'TempoClock': FC},
+         hooks={'getattr': ts_getattr, 'ext': ts_ext}, modifies=[], native=False)
